@@ -31,6 +31,9 @@ type node struct {
 
 	// The current state of the runnable in this node.
 	state nodeState
+	// Whether the goroutine running this node's runnable has returned (and the processor has been told so). A node in
+	// state DONE whose runnable is still on its way out must not be restarted yet.
+	exited bool
 
 	// Backoff used to keep runnables from being restarted too fast.
 	bo *backoff.ExponentialBackOff
@@ -171,6 +174,7 @@ func (n *node) reset() {
 
 	// Clear children and state
 	n.state = nodeStateNew
+	n.exited = false
 	n.children = make(map[string]*node)
 	n.groups = nil
 
